@@ -94,7 +94,7 @@ FAMILIES = {
 # which families decide which property (first ones are the quick tier)
 PROP_FAMILIES = {
     "C01": ["deep-aff", "deep-affref", "deep-fb3", "deep-fb2", "affinity1", "refresh", "deep-refbound", "affinity", "fallbackrefresh", "spanner"],
-    "C02": ["deep-load", "growth2", "affinity", "refresh", "deep-affref", "rr", "spanner"],
+    "C02": ["deep-load", "growth2", "deep-fb3", "affinity", "refresh", "deep-affref", "rr", "spanner"],
     "C03": ["growth", "growth2", "faults", "refresh", "deep-refresh", "spanner"],
     "C04": ["states", "refresh", "deep-refresh", "faults", "spanner"],
     "C05": ["faults", "deep-refresh", "faultsfb", "refreshfail", "deep-refbound", "spanner"],
